@@ -1228,7 +1228,8 @@ func (st *Runtime) evalPipeCallExpression(baseExpr reflect.Value, args CallArgs,
 		return reflect.Value{}, nil
 	}
 
-	return returns[0], nil
+	// a result of type interface{} is unwrapped, like variables, fields and elements are
+	return indirectEface(returns[0]), nil
 }
 
 func (st *Runtime) evalCommandExpression(node *CommandNode) (reflect.Value, bool) {
